@@ -5,7 +5,7 @@ import json, subprocess, sys
 CHECKS = {
  "C01": dict(level="model_checking", engine="seqmc", ref="§3 C01",
    technique="explicit-state BFS over event histories on the real storage functions, dedup on canonical state, reference-model oracle",
-   text="Breadth-first exploration to a fixpoint of every announce/scrape/clean/tick history over small alphabets (1 torrent x 4 keys; 2 torrents x 2 families; 2 torrents x 2 keys), every transition executed on the real aquatic_udp::swarm::TorrentMaps and compared with a reference tracker, plus hand-out/scrape probes in every state. Exhaustive within the alphabet; right level because the property quantifies over histories.",
+   text="Breadth-first exploration to a fixpoint of every announce/scrape/clean/tick history over small alphabets (1 torrent x 4 keys; 2 torrents x 2 families; 2 torrents x 2 keys; both families under the configuration in which IPv4 hosts are served through the dual-stack IPv6 socket alone, use_ipv4 = false), every transition executed on the real aquatic_udp::swarm::TorrentMaps and compared with a reference tracker, plus hand-out/scrape probes in every state. Exhaustive within the alphabet; right level because the property quantifies over histories.",
    note="Alphabet bounds (keys, torrents, clock 0..2); sequential histories only; verif_dump (hook H3) trusted to read state faithfully."),
  "C07": dict(level="model_checking", engine="seqmc", ref="§3 C07",
    technique="explicit-state BFS over event histories on the real HTTP swarm storage, dedup on canonical state, reference-model oracle",
@@ -53,7 +53,7 @@ CHECKS = {
    note="Two-step mutations and inputs longer than the corpus messages are not enumerated; Connection::read_request's documented panic on a missing proxy header is out of scope."),
  "C04": dict(level="model_checking", engine="coop", ref="§3 C04",
    technique="stateless exploration of all thread interleavings at lock-operation granularity (CHESS-style controlled scheduler over real threads, prefix replay), per-torrent linearizability oracle",
-   text="Real OS threads run announce / scrape / clean on the real shared TorrentMaps; the instrumented RwLock (hook H3) yields to a baton scheduler at every acquire, upgrade and release, a mirror lock table decides enabledness (so deadlock = no enabled thread) and every interleaving is enumerated by DFS with prefix replay: all 2-thread one-operation programs over 9 operations x 4 initial states exhaustively, 3-thread programs and 2-operation programs under an iterated preemption bound, two concurrent cleaning passes with every lock operation of all 32 shards a choice point. Every execution's call/return history must be linearizable per torrent (brute force over orders) including the quiescent final state, so an answered announce lost to a concurrent cleaning pass is a violation. The mirror lock table is itself validated against the real lock on free-running threads (lock litmus: every reachable state of one lock with 2-3 threads, every transition executed on the real RwLock; a discrepancy is exit 2).",
+   text="Real OS threads run announce / scrape / clean on the real shared TorrentMaps; the instrumented RwLock (hook H3) yields to a baton scheduler at every acquire, upgrade and release, a mirror lock table decides enabledness (so deadlock = no enabled thread) and every interleaving is enumerated by DFS with prefix replay: all 2-thread one-operation programs over 9 operations x 4 initial states exhaustively, 3-thread programs and 2-operation programs under an iterated preemption bound, two concurrent cleaning passes with every lock operation of all 32 shards a choice point, and a cross-shard family (3- and 4-thread programs: scrapes naming a shard-0 and a shard-1 torrent in either order next to announces that insert never-seen torrents into those shards and a cleaning pass - the smallest shape in which readers and upgrading writers of two shard locks can wait for each other in a cycle). Every execution's call/return history must be linearizable per torrent (brute force over orders) including the quiescent final state, so an answered announce lost to a concurrent cleaning pass is a violation. The mirror lock table is itself validated against the real lock on free-running threads (lock litmus: every reachable state of one lock with 2-3 threads, every transition executed on the real RwLock; a discrepancy is exit 2).",
    note="Sequential consistency; mirror lock table validated by the lock litmus (25 ms is the observation that a call is blocked); footprint reduction (locks touched by one thread are not choice points) asserted at run time and cross-checked; preemption bounds as reported in the evidence."),
  "C06": dict(level="exploration", engine="netmc", ref="§3 C06",
    technique="exhaustive enumeration of a datagram alphabet x connection-id classes x sources against real socket workers over loopback (mio and io_uring), fenced per socket, oracle from an independent BEP 15 decoder and a clone of the validator",
@@ -61,7 +61,7 @@ CHECKS = {
    note="Scheduling inside the workers is not controlled; source port 0 is injected through a raw IPv4 socket; datagrams beyond 5 KiB not sent."),
  "C18": dict(level="exploration", engine="netmc", ref="§3 C18",
    technique="exhaustive enumeration of configuration values against real trackers started through run() in child processes, worst-case accepted request per value, control request of identical length",
-   text="For UDP (mio and io_uring, IPv4 and IPv6) and HTTP, every configuration value in the tier's range (quick: 0, 1, defaults, both sides of each buffer threshold; thorough: every value 0..=600 plus IPv4 thresholds, every u8 max_scrape_torrents) starts a real tracker through run() - or the start-up is observed to be refused; the swarm is filled to exactly the limit and to limit+1 and the request with the largest possible reply is sent; HTTP scrapes of every hash count the request buffer admits are sent, each paired with a same-length control request, so that a closed connection or silence with an answered control is a reply that did not fit. WebTorrent: websocket_write_buffer_size x websocket_max_message_size x max_scrape_torrents x swarm workers (quick: the defaults and each value on its own; thorough: the full product of 54): the largest accepted announce with an offer, its answer, and a scrape of max_scrape_torrents torrents with six-byte-per-character identifiers must be delivered whole and leave the connections usable.",
+   text="For UDP (mio and io_uring, IPv4 and IPv6) and HTTP, every configuration value in the tier's range (quick: 0, 1, defaults, both sides of each buffer threshold; thorough: every value 0..=600 plus IPv4 thresholds, every u8 max_scrape_torrents) starts a real tracker through run() - or the start-up is observed to be refused; the swarm is filled to exactly the limit and to limit+1 and the request with the largest possible reply is sent; HTTP scrapes of every hash count the request buffer admits are sent, each paired with a same-length control request, so that a closed connection or silence with an answered control is a reply that did not fit. WebTorrent: websocket_write_buffer_size x websocket_max_message_size x max_scrape_torrents x swarm workers (quick: the defaults and each value on its own; thorough: the full product of 54): the largest accepted announce with an offer, its answer, and a scrape of max_scrape_torrents torrents with six-byte-per-character identifiers must be delivered whole and leave the connections usable. A configuration with findings is run again on its own and only what shows again is reported.",
    note="Requests the request path rejects are out of scope (C06/C16); counters are small (buffers are sized for 20-digit counters); WebTorrent frames are sent fragmented below websocket_max_frame_size."),
  "C19": dict(level="fault_enumeration", engine="netmc", ref="§3 C19",
    technique="exhaustive enumeration of fault plans (worker kind x fault point x panic/return x time x worker count) against run() in child processes, injected through cfg-gated probes",
